@@ -141,7 +141,7 @@ HbViols(t) ==
                THEN {IF Cardinality(M1) < P.Dlo THEN Viol("P_C07_Grow", "not-exact", t, "")
                      ELSE IF Cardinality(M1) >= P.Dhi THEN Viol("P_C07_Cut", "not-exact", t, "")
                      ELSE IF R1 # {} THEN Viol("P_C07_Cut", "cut-below-Dhi", t, "")
-                     ELSE Viol("P_C07_Grow", "quota-or-opportunistic-additions-not-as-specified", t, "")}
+                     ELSE Viol("P_C07_Grow", "additions-not-explained-by-quota-or-opportunistic-graft", t, "")}
                ELSE {})
        \cup {Viol("P_C07_Signalling", "graft-not-sent", t, p) : p \in {q \in A : ~(SentGraft(q, t) \/ PendGraft(Post, q, t))}}
        \cup {Viol("P_C07_Signalling", "prune-not-sent", t, p) :
